@@ -27,13 +27,14 @@ RULE = ('a recorded list of calls (make / make_qr / make_micro / make_sequence w
         'matrix; distinct = distinct (call, context) executions compared with a golden fingerprint')
 ASSUMPTIONS = ['golden = first call in a fresh interpreter (PYTHONHASHSEED=0)', 'interleavings are sampled, not enumerated; with the GIL only '
                'statement-granular switches exist', 'free-threaded builds are out of reach']
-REQUIRED = ['evaluations', 'golden_subprocesses', 'hashseed_variants_compared', 'interaction_core_replayed', 'history_replays_compared', 'thread_calls_compared', 'barrier_rounds',
+REQUIRED = ['evaluations', 'golden_subprocesses', 'hashseed_variants_compared', 'timezone_variants_compared', 'interaction_core_replayed', 'history_replays_compared', 'thread_calls_compared', 'barrier_rounds',
             'injected_yields', 'state_fingerprints_compared', 'returned_matrices_rehashed', 'idempotence_pairs', 'argument_snapshots_compared',
             'overlapping_call_pairs']
 TIMEOUT = {'quick': 3600, 'thorough': 21600}
 SEGNO_MODULES = ['consts', 'encoder', 'writers', 'utils', 'helpers', 'cli']
 INJECT_FUNCS = {'encoder': ['find_and_apply_best_mask', 'add_finder_patterns', 'add_alignment_patterns', 'make_matrix', '_encode',
-                            'make_segment', 'prepare_data', 'make_blocks', 'make_final_message', 'boost_error_level'],
+                            'make_segment', 'prepare_data', 'make_blocks', 'make_final_message', 'boost_error_level', 'data_to_bytes',
+                            'find_version', 'encode'],
                 'writers': ['_make_colormap', 'write_ppm', 'save'], 'utils': ['matrix_iter_verbose']}
 
 
@@ -78,6 +79,12 @@ def gen_cases(tier, seed):
             n_ = gen.max_chars(v, oracle.levels_of(v)[-1], 'numeric')
             group.append({'op': 'make', 'fn': 'make', 'content': gen.digits(rng, rng.randint(1, n_)), 'kw': {'version': v}})
         calls.append({'op': 'barrier-group', 'version': str(v), 'calls': group})
+    # integers beyond Python's int -> str limit (4300 digits), several threads at once: the interpreter setting that
+    # decides about them is process-wide, whoever touches it must not make the outcome depend on the neighbours
+    for g_ in range(12 if tier == 'quick' else 40):
+        group = [{'op': 'make', 'fn': 'make', 'content': 10 ** (4350 + 7 * j + g_) + rng.randrange(10 ** 9), 'kw': {'error': 'L', 'micro': False}}
+                 for j in range(8)]
+        calls.append({'op': 'barrier-group', 'version': 'bigint%d' % g_, 'calls': group})
     k = 0
     for c in calls:
         for cc in (c['calls'] if c['op'] == 'barrier-group' else [c]):
@@ -110,7 +117,10 @@ def rnd_helper_call(rng):
               'phone': rng.choice([None, '+1 555 123'])}
     elif fn == 'make_vcard':
         kw = {'name': rng.choice(['Doe;John', 'Mustermann;Erika']), 'displayname': rng.choice(['John Doe', 'Erika M.']),
-              'email': rng.choice([None, 'a@example.org']), 'birthday': rng.choice([None, '1980-05-17'])}
+              'email': rng.choice([None, 'a@example.org']),
+              'birthday': rng.choice([None, '1980-05-17', {'$date': [1980, 5, 17]}, {'$datetime': [1980, 5, 17, 0, 20, 0]}]),
+              'rev': rng.choice([None, None, '2020-05-05', {'$date': [2001, 1, 1]}, {'$datetime': [1976, 9, 19, 23, 30, 0]},
+                                 {'$datetime': [1976, 9, 19, 0, 30, 0]}])}
     elif fn == 'make_geo':
         kw = {'lat': rng.choice([38.8976763, -0.5, 0, 90]), 'lng': rng.choice([-77.0365297, 12.25, 180])}
     else:
@@ -162,7 +172,12 @@ def interaction_groups():
                    for a in (12.125, '12.125', 0.375, '2.675', 12.13, 12.12, '100.005', 0.01)] +
                   [{'op': 'helper', 'fn': 'make_wifi', 'kw': {'ssid': 'net', 'password': 'p;w', 'security': 'WPA'}},
                    {'op': 'helper', 'fn': 'make_geo', 'kw': {'lat': 38.8976763, 'lng': -77.0365297}},
-                   {'op': 'helper', 'fn': 'make_mecard', 'kw': {'name': 'Doe,John', 'email': 'a@example.org'}}])
+                   {'op': 'helper', 'fn': 'make_mecard', 'kw': {'name': 'Doe,John', 'email': 'a@example.org'}}] +
+                  # date / time values just before and after midnight: the day written must not depend on the time zone
+                  # of the process (goldens are also taken under two other TZ settings, see golden_in_subprocess)
+                  [{'op': 'helper', 'fn': 'make_vcard', 'kw': {'name': 'Doe;John', 'displayname': 'John Doe', 'rev': r, 'birthday': b}}
+                   for r, b in (({'$datetime': [1976, 9, 19, 23, 30, 0]}, None), ({'$datetime': [1976, 9, 19, 0, 30, 0]}, None),
+                                (None, {'$datetime': [1980, 5, 17, 23, 59, 59]}), ({'$date': [2001, 1, 1]}, {'$date': [1980, 5, 17]}))])
     k = 900000
     for g in groups:
         for c in g:
@@ -173,6 +188,16 @@ def interaction_groups():
 
 _STAMPS = [(re.compile(rb'(%%CreationDate: )[0-9: -]{19}'), rb'\1' + b'X' * 19),
            (re.compile(rb"(/CreationDate\(D:)[0-9+\-']{21}"), rb'\1' + b'X' * 21)]
+
+
+def _real(v):
+    """JSON-able stand-ins for date / datetime arguments."""
+    import datetime
+    if isinstance(v, dict) and '$datetime' in v:
+        return datetime.datetime(*v['$datetime'])
+    if isinstance(v, dict) and '$date' in v:
+        return datetime.date(*v['$date'])
+    return v
 
 
 def execute(call):
@@ -189,7 +214,7 @@ def execute(call):
             return 'ok:' + h.hexdigest()[:24], syms
         if call['op'] == 'helper':
             from segno import helpers
-            q = getattr(helpers, call['fn'])(**call['kw'])
+            q = getattr(helpers, call['fn'])(**{k: _real(v) for k, v in call['kw'].items()})
             h = hashlib.sha256(b'|'.join(bytes(r) for r in q.matrix))
             h.update(repr((q.version, q.error, q.mask, q.mode, q.designator, q.is_micro)).encode())
             return 'ok:' + h.hexdigest()[:24], [q]
@@ -218,6 +243,16 @@ def golden_in_subprocess(calls, rec=None):
             res[c['id']] = 'golden-failed:%s' % p.stderr.decode('utf-8', 'replace')[-200:]
         else:
             res[c['id']] = p.stdout.decode().strip()
+        if c['op'] == 'helper' and rec is not None and p.returncode == 0:
+            # the same call in fresh interpreters living in other time zones (POSIX TZ strings, no tz database needed)
+            for tz in ('PSX8', 'XYZ-13'):
+                p3 = core.run_sub([sys.executable, '-m', 'vmon.props.c15', 'one'], input=json.dumps(core.enc(c)).encode(), capture_output=True,
+                                  env=dict(core.child_env(), TZ=tz), cwd=core.VERIF)
+                if p3.returncode == 0:
+                    rec.count('timezone_variants_compared')
+                    if p3.stdout.decode().strip() != res[c['id']]:
+                        rec.deviation('C15', 'result-depends-on-time-zone', {'default': res[c['id']], 'TZ': tz, 'other': p3.stdout.decode().strip(),
+                                                                             'call': core.short(core.enc(c), 250)}, case=c)
         if k % 4 == 0 and rec is not None:
             # the same call in another fresh interpreter with another string-hash seed: results must not depend on set / dict order
             env = dict(core.child_env(), PYTHONHASHSEED=str(1000 + k))
@@ -270,6 +305,19 @@ def module_state():
                 continue
             _TRACKED.add('%s.%s' % (name, k))
             st['%s.%s' % (name, k)] = hashlib.sha256(deep_fp(v).encode()).hexdigest()[:16]
+    # process-wide settings of the interpreter a library call has no business changing (they decide about the results of
+    # later calls - the library's own and everybody else's)
+    import decimal
+    import locale
+    c = decimal.getcontext()
+    st['env:decimal-context(main thread)'] = repr((c.prec, c.rounding, c.Emin, c.Emax, c.capitals, c.clamp,
+                                                   sorted(str(f) for f, on in c.traps.items() if on)))
+    if hasattr(sys, 'get_int_max_str_digits'):
+        st['env:int_max_str_digits'] = str(sys.get_int_max_str_digits())
+    st['env:recursionlimit'] = str(sys.getrecursionlimit())
+    st['env:cwd'] = os.getcwd()
+    st['env:locale'] = str(locale.setlocale(locale.LC_ALL))
+    st['env:environ'] = hashlib.sha256(repr(sorted(os.environ.items())).encode()).hexdigest()[:16]
     return st
 
 
